@@ -601,6 +601,7 @@ func (c *Chunker) buildSections(doc *model.Document) []*Section {
 						Page: pageIndex,
 						BBox: heading.BBox,
 					})
+					currentSection.PageEnd = pageIndex
 				}
 			}
 		}
